@@ -71,7 +71,7 @@ def run(pid, tier='quick', seed=None, replay=None):
     thms = []
     for m in mods:
         thms += theorem_names(m)
-    ok, out = core.lake_build(['m4ri_model'] + mods)
+    ok, out = core.lake_build(['m4ri_model', 'm4ri_trace'] + mods)
     broken_thms = []
     if not ok:
         errs = re.findall(r'error: ([^\n]*)', out)
@@ -164,7 +164,7 @@ def run(pid, tier='quick', seed=None, replay=None):
             ex = prop['extra'](tier, seed)
             extra_cov = ex.get('coverage', {})
             for v in ex.get('violations', []):
-                violations.append(('impl', v))
+                violations.append(('tie' if v.get('tie_only') else 'impl', v))
         except Exception as e:
             violations.append(('extra', dict(kind='tie-broken', what='implementation-side check crashed',
                                              error=traceback.format_exc()[-3000:])))
